@@ -84,6 +84,11 @@ func (e *Engine) resolveType(pkg *types.Package, s string) types.Type {
 			return types.NewSlice(t)
 		}
 		return nil
+	case strings.HasPrefix(s, "chan"):
+		if t := e.resolveType(pkg, strings.TrimSpace(s[4:])); t != nil {
+			return types.NewChan(types.SendRecv, t)
+		}
+		return nil
 	case strings.HasPrefix(s, "map["):
 		depth := 0
 		for i := 3; i < len(s); i++ {
